@@ -1,17 +1,41 @@
-"""Gen/ExsConsts.v: constants and small tables of the Eclipse-style XML writer, read from
-/repo's *current* source with `ast` on every run (capellambse/loader/exs.py, loader/core.py,
-_namespaces.py).  Fails closed (raises) when the source no longer has the expected shape.
+"""Gen/ExsConsts.v: constants and small tables of the Eclipse-style XML writer, read from the
+*current* source of the tree under check (VERIF_REPO, default /repo) with `ast` on every run
+(capellambse/loader/exs.py, loader/core.py, _namespaces.py).  Nothing is cached, nothing is
+defaulted: a value that cannot be determined with certainty raises `Shape` (fail closed).
+
+How the source is read (robust against behaviour-preserving refactorings, not against changes
+of meaning)
+  * names are resolved through single assignments: a module-level name that is bound exactly
+    once (and is not declared `global` anywhere), or a local that is bound exactly once in its
+    function, stands for the expression it was assigned; a small static evaluator folds
+    literals, tuples/sets/dicts, `+ - *`, `len`, `ord`, `frozenset(..)`, `str.format`,
+    f-strings, `.encode`, `re.compile(<str>)`, `os.linesep`, `sys.maxsize`;
+  * the characteristic statement of a function is searched in its whole body, nested blocks
+    included, and in the same-module helpers it calls (two levels), not at a fixed statement
+    index; exactly one match is required everywhere;
+  * equivalent expression forms are accepted where the meaning is unambiguous (conditional
+    expression / if-else / `{..}.get`, comprehension / loop, chained / and-ed comparisons,
+    parameter default / module constant / literal); the text condition of `_serialize_element`
+    is classified by evaluating it over the complete case table of the atoms it may use;
+  * every behaviourally observable value is ALSO probed on the real code: the modules are
+    imported from the tree under check in a subprocess, the serializer is run on a few
+    purpose-built inputs (attribute order, wrap column, indentation, forced break, escape
+    classes, "]]>" handling, blank leaf text, line length per file type, namespace seed, plugin
+    table) and the observation is compared with what the AST result predicts.  A disagreement
+    or a probe that cannot run raises.
 
 What is extracted
-  exs.py   INDENT, LINE_LENGTH, ESCAPE_CHARS/P_ESCAPE_TEXT/P_ESCAPE_COMMENTS (regex character
-           classes, parsed by the small class parser below), the pattern `_serialize_comment`
-           hands to `_serialize_text`, `_escape_char`'s ord_low/ord_high defaults, the entity
-           names the members of the classes map to (html.entities of the running interpreter),
-           ALWAYS_EXPANDED_TAGS, the priority attribute tuple of `_unmapped_attrs`, the rank
-           table of `_ns_sortkey`, the prefix `xmlns:` of namespace declarations, and two shape
-           flags: whether `_serialize_text` rewrites "]]>" and whether `_serialize_element`
-           keeps whitespace-only text of leaf elements (see proposed_fixes/C02-*.diff).
-  core.py  SEMANTIC_EXTS, VISUAL_EXTS, the two line lengths chosen in ModelFile.write_xml.
+  exs.py   INDENT, LINE_LENGTH, LINESEP, ESCAPE_CHARS/P_ESCAPE_TEXT/P_ESCAPE_COMMENTS (regex
+           character classes, parsed by the small class parser below), the pattern
+           `_serialize_comment` hands to `_serialize_text`, the bounds of `_escape_char`'s
+           named-entity range, the entity names the members of the classes map to
+           (html.entities of the running interpreter), ALWAYS_EXPANDED_TAGS, the priority
+           attribute tuple of `_unmapped_attrs`, the rank table of `_ns_sortkey`, the prefix
+           `xmlns:` of namespace declarations, and two shape flags: whether `_serialize_text`
+           rewrites "]]>" and whether `_serialize_element` keeps whitespace-only text of leaf
+           elements (see proposed_fixes/C02-*.diff).
+  core.py  SEMANTIC_EXTS, VISUAL_EXTS, the two line lengths chosen in ModelFile.write_xml, the
+           seed of ModelFile.update_namespaces.
   _namespaces.py  NAMESPACES_PLUGINS (name, version, viewpoint, version_precision).
   interpreter     the code points for which str.isspace() holds (what str.strip() removes),
                   sys.maxsize.
@@ -19,15 +43,24 @@ What is extracted
 from __future__ import annotations
 
 import ast
+import collections
 import html.entities
+import json
+import os
 import pathlib
+import subprocess
 import sys
+import typing as t
 
 OUTPUTS = ["ExsConsts.v"]
 
 
 class Shape(Exception):
     pass
+
+
+class NotStatic(Shape):
+    """An expression that the static evaluator cannot fold to a value."""
 
 
 def _need(cond, msg):
@@ -80,54 +113,388 @@ def _members(cls):
         yield from range(lo, hi + 1)
 
 
-# ------------------------------------------------------------------ ast helpers
-def _assign(mod: ast.Module, name: str) -> ast.expr:
-    for s in mod.body:
-        if isinstance(s, ast.Assign) and len(s.targets) == 1 and isinstance(s.targets[0], ast.Name) and s.targets[0].id == name:
-            return s.value
-        if isinstance(s, ast.AnnAssign) and isinstance(s.target, ast.Name) and s.target.id == name and s.value is not None:
-            return s.value
-    raise Shape(f"no module-level assignment of {name}")
+def _in_class(c: int, cls) -> bool:
+    return any(lo <= c <= hi for lo, hi in cls)
 
 
-def _func(mod: ast.AST, name: str) -> ast.FunctionDef:
-    for n in ast.walk(mod):
-        if isinstance(n, ast.FunctionDef) and n.name == name:
-            return n
-    raise Shape(f"no function {name}")
+# ------------------------------------------------------------------ reading a module
+class Regex(t.NamedTuple):
+    """`re.compile(<source>)` without flags"""
+    source: str
 
 
-def _const(e: ast.expr, ty):
-    _need(isinstance(e, ast.Constant) and isinstance(e.value, ty), f"expected {ty} literal, got {ast.dump(e)[:60]}")
-    return e.value
+_FUNCS = (ast.FunctionDef, ast.AsyncFunctionDef)
+_SCOPES = (ast.FunctionDef, ast.AsyncFunctionDef, ast.ClassDef, ast.Lambda)
+_COMPS = (ast.ListComp, ast.SetComp, ast.DictComp, ast.GeneratorExp)
 
 
-def _strset(e: ast.expr) -> list[str]:
-    if isinstance(e, ast.Call) and isinstance(e.func, ast.Name) and e.func.id == "frozenset" and len(e.args) == 1:
-        e = e.args[0]
-    _need(isinstance(e, (ast.Set, ast.Tuple, ast.List)), "expected a set literal")
-    return sorted(_const(x, str) for x in e.elts)
+def walk_scope(node: ast.AST, *, comps: bool = True) -> t.Iterator[ast.AST]:
+    """The nodes that belong to the scope of `node` (a module, function or any statement):
+    nested function / class / lambda nodes are yielded but not entered; comprehensions are
+    entered only if `comps`.  Document order."""
+    todo = list(reversed(list(ast.iter_child_nodes(node))))
+    while todo:
+        n = todo.pop()
+        yield n
+        if isinstance(n, _SCOPES) or (not comps and isinstance(n, _COMPS)):
+            continue
+        todo.extend(reversed(list(ast.iter_child_nodes(n))))
 
 
-def _compiled_format(mod: ast.Module, name: str, template: str) -> str:
-    """P_X = re.compile(ESCAPE_CHARS.format('...'))  ->  regex source"""
-    e = _assign(mod, name)
-    _need(isinstance(e, ast.Call) and ast.unparse(e.func) == "re.compile" and len(e.args) == 1, f"{name}: not re.compile(..)")
-    a = e.args[0]
-    if isinstance(a, ast.Constant):
-        return _const(a, str)
-    _need(isinstance(a, ast.Call) and ast.unparse(a.func) == "ESCAPE_CHARS.format" and len(a.args) == 1 and not a.keywords,
-          f"{name}: not ESCAPE_CHARS.format(..)")
-    return template.format(_const(a.args[0], str))
+def _pos(n: ast.AST) -> tuple[int, int]:
+    return (getattr(n, "lineno", 0), getattr(n, "col_offset", 0))
 
 
-def _ord_default(e: ast.expr) -> int:
-    if isinstance(e, ast.Constant) and isinstance(e.value, int):
-        return e.value
-    _need(isinstance(e, ast.Call) and isinstance(e.func, ast.Name) and e.func.id == "ord" and len(e.args) == 1, "ord(..) default expected")
-    s = _const(e.args[0], str)
-    _need(len(s) == 1, "ord of one char")
-    return ord(s)
+def body_of(fn: ast.AST) -> list[ast.stmt]:
+    """statements of a function without its docstring"""
+    b = list(fn.body)
+    if b and isinstance(b[0], ast.Expr) and isinstance(b[0].value, ast.Constant) and isinstance(b[0].value.value, str):
+        b = b[1:]
+    return b
+
+
+def params_of(fn) -> list[str]:
+    a = fn.args
+    return [x.arg for x in a.posonlyargs + a.args + a.kwonlyargs] + [x.arg for x in (a.vararg, a.kwarg) if x]
+
+
+def param_default(fn, name: str) -> ast.expr | None:
+    a = fn.args
+    pos = a.posonlyargs + a.args
+    for p, d in zip(pos[len(pos) - len(a.defaults):], a.defaults):
+        if p.arg == name:
+            return d
+    for p, d in zip(a.kwonlyargs, a.kw_defaults):
+        if p.arg == name:
+            return d
+    return None
+
+
+def bind_call(fn, call: ast.Call, *, method: bool = False) -> dict[str, ast.expr]:
+    """parameter name -> argument expression of `call` to `fn` (no defaults filled in)"""
+    a = fn.args
+    pos = [x.arg for x in a.posonlyargs + a.args]
+    if method:
+        pos = pos[1:]
+    _need(not any(isinstance(x, ast.Starred) for x in call.args) and all(k.arg for k in call.keywords),
+          f"call of {fn.name} with * or ** arguments")
+    _need(len(call.args) <= len(pos), f"call of {fn.name}: too many positional arguments")
+    out = dict(zip(pos, call.args))
+    names = set(pos) | {x.arg for x in a.kwonlyargs}
+    for k in call.keywords:
+        _need(k.arg in names and k.arg not in out, f"call of {fn.name}: unexpected argument {k.arg}")
+        out[k.arg] = k.value
+    return out
+
+
+class Src:
+    """One module of the tree under check: parsed source, single-assignment name resolution,
+    static evaluation, function lookup and call closure."""
+
+    def __init__(self, path: pathlib.Path):
+        self.path = path
+        self.mod = ast.parse(path.read_text(), filename=str(path))
+        self._bind: dict[int, dict[str, list[ast.AST]]] = {}
+        self._globals = {x for n in ast.walk(self.mod) if isinstance(n, (ast.Global, ast.Nonlocal)) for x in n.names}
+        self.functions: dict[str, list[ast.AST]] = collections.defaultdict(list)     # module level
+        self.methods: dict[tuple[str, str], list[ast.AST]] = collections.defaultdict(list)
+        self.owner: dict[int, str | None] = {}                                       # id(def) -> class name
+        for s in self.mod.body:
+            if isinstance(s, _FUNCS):
+                self.functions[s.name].append(s)
+                self.owner[id(s)] = None
+            elif isinstance(s, ast.ClassDef):
+                for m in s.body:
+                    if isinstance(m, _FUNCS):
+                        self.methods[(s.name, m.name)].append(m)
+                        self.owner[id(m)] = s.name
+
+    # ---- functions
+    def func(self, name: str, cls: str | None = None):
+        """the function `name` (module level, or method of `cls`); exactly one definition"""
+        found = self.methods.get((cls, name), []) if cls else self.functions.get(name, [])
+        where = f"{cls}.{name}" if cls else name
+        _need(found, f"{self.path.name}: no function {where}")
+        _need(len(found) == 1, f"{self.path.name}: {where} is defined {len(found)} times")
+        fn = found[0]
+        _need(not any(isinstance(n, (ast.Global, ast.Nonlocal)) for n in walk_scope(fn)),
+              f"{where}: global/nonlocal declaration")
+        return fn
+
+    def callee(self, fn, call: ast.Call):
+        """the same-module function a call inside `fn` goes to (module function called by name,
+        or method of fn's class called through its first parameter), else None"""
+        f = call.func
+        if isinstance(f, ast.Name):
+            if f.id in self.bindings(fn):            # a local shadows the module function
+                return None
+            defs = self.functions.get(f.id, [])
+            if len(defs) == 1 and len(self.bindings(self.mod).get(f.id, [])) == 1:
+                return defs[0]
+            return None
+        cls = self.owner.get(id(fn))
+        if cls and isinstance(f, ast.Attribute) and isinstance(f.value, ast.Name):
+            a = fn.args.posonlyargs + fn.args.args
+            if a and f.value.id == a[0].arg:
+                defs = self.methods.get((cls, f.attr), [])
+                if len(defs) == 1:
+                    return defs[0]
+        return None
+
+    def calls_in(self, fn) -> list[tuple[ast.Call, t.Any]]:
+        return [(n, self.callee(fn, n)) for n in walk_scope(fn) if isinstance(n, ast.Call)]
+
+    def closure(self, fn, depth: int = 2) -> list:
+        """`fn` and the same-module functions it calls, `depth` levels deep (fn first)"""
+        out, frontier = [fn], [fn]
+        for _ in range(depth):
+            nxt = []
+            for f in frontier:
+                for _c, g in self.calls_in(f):
+                    if g is not None and all(g is not h for h in out):
+                        out.append(g)
+                        nxt.append(g)
+            frontier = nxt
+        return out
+
+    # ---- bindings
+    def bindings(self, scope) -> dict[str, list[ast.AST]]:
+        """name -> the nodes that bind it in `scope` (the module or one function)"""
+        if id(scope) in self._bind:
+            return self._bind[id(scope)]
+        b: dict[str, list[ast.AST]] = collections.defaultdict(list)
+        if isinstance(scope, _FUNCS):
+            a = scope.args
+            for x in a.posonlyargs + a.args + a.kwonlyargs + [y for y in (a.vararg, a.kwarg) if y]:
+                b[x.arg].append(x)
+        for n in walk_scope(scope, comps=False):
+            if isinstance(n, ast.Name) and isinstance(n.ctx, (ast.Store, ast.Del)):
+                b[n.id].append(n)
+            elif isinstance(n, (ast.FunctionDef, ast.AsyncFunctionDef, ast.ClassDef)):
+                b[n.name].append(n)
+            elif isinstance(n, (ast.Import, ast.ImportFrom)):
+                for al in n.names:
+                    b[(al.asname or al.name).split(".")[0]].append(n)
+            elif isinstance(n, ast.ExceptHandler) and n.name:
+                b[n.name].append(n)
+            elif isinstance(n, (ast.Global, ast.Nonlocal)):
+                for x in n.names:
+                    b[x].append(n)
+            elif type(n).__name__.startswith("Match"):
+                raise Shape(f"{self.path.name}: match statement in a scope that is read statically")
+        for n in walk_scope(scope, comps=True):          # walrus inside a comprehension binds outside
+            if isinstance(n, ast.NamedExpr) and isinstance(n.target, ast.Name) and all(n.target is not x for x in b[n.target.id]):
+                b[n.target.id].append(n.target)
+        self._bind[id(scope)] = b
+        return b
+
+    def _single_assignment(self, scope, name: str) -> ast.expr:
+        """the expression `name` was bound to, if `name` is bound exactly once in `scope` and
+        that binding is a plain `name = expr` / `name: T = expr`"""
+        bs = self.bindings(scope).get(name, [])
+        _need(len(bs) == 1, f"{name}: bound {len(bs)} times" if not isinstance(scope, ast.Module) or bs
+              else f"no module-level assignment of {name}")
+        tgt = bs[0]
+        for n in walk_scope(scope, comps=False):
+            if isinstance(n, ast.Assign) and len(n.targets) == 1 and n.targets[0] is tgt:
+                return n.value
+            if isinstance(n, ast.AnnAssign) and n.target is tgt and n.value is not None:
+                return n.value
+        raise NotStatic(f"{name}: not bound by a plain assignment")
+
+    def is_module_import(self, name: str, module: str) -> bool:
+        bs = self.bindings(self.mod).get(name, [])
+        return (len(bs) == 1 and isinstance(bs[0], ast.Import) and name not in self._globals
+                and any((al.asname or al.name) == name and al.name == module for al in bs[0].names))
+
+    def is_builtin(self, name: str, fn=None) -> bool:
+        return name not in self.bindings(self.mod) and not (fn is not None and name in self.bindings(fn))
+
+    def value_of(self, name: ast.Name, fn=None, *, defaults: bool = False) -> tuple[ast.expr, t.Any]:
+        """(expression, scope it must be read in) a Name stands for at the place it is used"""
+        if fn is not None and name.id in self.bindings(fn):
+            if name.id in params_of(fn):
+                _need(len(self.bindings(fn)[name.id]) == 1, f"{fn.name}: parameter {name.id} is rebound")
+                d = param_default(fn, name.id) if defaults else None
+                if d is None:
+                    raise NotStatic(f"{fn.name}: {name.id} is a parameter")
+                return d, None
+            v = self._single_assignment(fn, name.id)
+            tgt = self.bindings(fn)[name.id][0]
+            if not _pos(tgt) < _pos(name):
+                raise NotStatic(f"{fn.name}: {name.id} is used before it is bound")
+            return v, fn
+        if name.id in self._globals:
+            raise NotStatic(f"{name.id} is declared global somewhere")
+        if self._mutated(name.id):
+            raise NotStatic(f"{name.id} is modified in place somewhere")
+        try:
+            v = self._single_assignment(self.mod, name.id)
+        except NotStatic:
+            raise
+        except Shape as e:
+            raise NotStatic(str(e)) from None
+        tgt = self.bindings(self.mod)[name.id][0]
+        if not any(isinstance(s, (ast.Assign, ast.AnnAssign)) and any(x is tgt for x in ast.walk(s)) for s in self.mod.body):
+            raise NotStatic(f"{name.id} is bound inside a nested block")
+        return v, None
+
+    _MUTATORS = frozenset({"append", "extend", "insert", "remove", "pop", "clear", "sort", "reverse", "update", "add", "discard",
+                           "setdefault", "popitem", "difference_update", "intersection_update", "symmetric_difference_update",
+                           "__setitem__", "__delitem__", "__iadd__", "__ior__"})
+
+    def _mutated(self, name: str) -> bool:
+        """is the object a module-level name stands for modified in place anywhere in this module
+        (x.append(..), x[k] = .., del x[k], x[k] += ..)?  Scopes in which the name is rebound are
+        already excluded by the binding count / by `callee`."""
+        for n in ast.walk(self.mod):
+            if isinstance(n, ast.Attribute) and isinstance(n.value, ast.Name) and n.value.id == name:
+                if n.attr in self._MUTATORS or isinstance(n.ctx, (ast.Store, ast.Del)):
+                    return True
+            if isinstance(n, ast.Subscript) and isinstance(n.value, ast.Name) and n.value.id == name and isinstance(n.ctx, (ast.Store, ast.Del)):
+                return True
+        return False
+
+    def assigned(self, name: str) -> ast.expr:
+        """value expression of a module-level constant"""
+        try:
+            return self.value_of(ast.Name(id=name, ctx=ast.Load(), lineno=10 ** 9, col_offset=0))[0]
+        except NotStatic as e:
+            raise Shape(f"{self.path.name}: {e}") from None
+
+    def const(self, name: str, ty):
+        v = self.ev(self.assigned(name))
+        _need(isinstance(v, ty) and not (ty is int and isinstance(v, bool)), f"{self.path.name}: {name} is not a {ty.__name__} constant")
+        return v
+
+    # ---- static evaluation
+    def ev(self, e: ast.expr, fn=None, *, defaults: bool = False, _d: int = 0):
+        """Value of a constant expression.  Raises NotStatic for anything it does not know."""
+        if _d > 25:
+            raise NotStatic("resolution too deep")
+
+        def r(x, scope=fn):
+            return self.ev(x, scope, defaults=defaults, _d=_d + 1)
+
+        if isinstance(e, ast.Constant):
+            if isinstance(e.value, (str, bytes, int, bool, type(None))):
+                return e.value
+        elif isinstance(e, ast.Tuple):
+            return tuple(r(x) for x in e.elts)
+        elif isinstance(e, ast.List):
+            return [r(x) for x in e.elts]
+        elif isinstance(e, ast.Set):
+            return frozenset(r(x) for x in e.elts)
+        elif isinstance(e, ast.Dict):
+            if all(k is not None for k in e.keys):
+                return {r(k): r(v) for k, v in zip(e.keys, e.values)}
+        elif isinstance(e, ast.Name):
+            v, scope = self.value_of(e, fn, defaults=defaults)
+            return r(v, scope)
+        elif isinstance(e, ast.UnaryOp) and isinstance(e.op, ast.USub):
+            v = r(e.operand)
+            if type(v) is int:
+                return -v
+        elif isinstance(e, ast.BinOp):
+            a, b = r(e.left), r(e.right)
+            if type(a) is int and type(b) is int:
+                if isinstance(e.op, ast.Add):
+                    return a + b
+                if isinstance(e.op, ast.Sub):
+                    return a - b
+                if isinstance(e.op, ast.Mult):
+                    return a * b
+            if isinstance(e.op, ast.Add) and type(a) is type(b) and isinstance(a, (str, bytes, tuple, list)):
+                return a + b
+            if isinstance(e.op, ast.Mult) and isinstance(a, (str, bytes)) and type(b) is int:
+                return a * b
+        elif isinstance(e, ast.JoinedStr):
+            out = ""
+            for p in e.values:
+                if isinstance(p, ast.Constant) and isinstance(p.value, str):
+                    out += p.value
+                elif isinstance(p, ast.FormattedValue) and p.conversion == -1 and p.format_spec is None:
+                    v = r(p.value)
+                    if type(v) not in (str, int):
+                        raise NotStatic("f-string part is not str/int")
+                    out += str(v)
+                else:
+                    raise NotStatic("f-string with conversion or format spec")
+            return out
+        elif isinstance(e, ast.Attribute) and isinstance(e.value, ast.Name) and not (fn is not None and e.value.id in self.bindings(fn)):
+            if e.attr == "maxsize" and self.is_module_import(e.value.id, "sys"):
+                return sys.maxsize
+            if e.attr == "linesep" and self.is_module_import(e.value.id, "os"):
+                return os.linesep
+        elif isinstance(e, ast.Call) and not any(isinstance(x, ast.Starred) for x in e.args):
+            f = e.func
+            if isinstance(f, ast.Name) and self.is_builtin(f.id, fn) and not e.keywords:
+                if f.id in ("frozenset", "set", "tuple", "list") and len(e.args) <= 1:
+                    v = r(e.args[0]) if e.args else ()
+                    if isinstance(v, (tuple, list, frozenset)):
+                        return {"frozenset": frozenset, "set": frozenset, "tuple": tuple, "list": list}[f.id](v)
+                if f.id == "len" and len(e.args) == 1:
+                    v = r(e.args[0])
+                    if isinstance(v, (str, bytes, tuple, list, frozenset, dict)):
+                        return len(v)
+                if f.id == "ord" and len(e.args) == 1:
+                    v = r(e.args[0])
+                    if isinstance(v, str) and len(v) == 1:
+                        return ord(v)
+                if f.id == "chr" and len(e.args) == 1:
+                    v = r(e.args[0])
+                    if type(v) is int and 0 <= v < 0x110000:
+                        return chr(v)
+            if isinstance(f, ast.Attribute) and not e.keywords:
+                if (f.attr == "compile" and isinstance(f.value, ast.Name) and self.is_module_import(f.value.id, "re")
+                        and not (fn is not None and f.value.id in self.bindings(fn)) and len(e.args) == 1):
+                    v = r(e.args[0])
+                    if isinstance(v, str):
+                        return Regex(v)
+                if f.attr == "format":
+                    s, args = r(f.value), [r(x) for x in e.args]
+                    if isinstance(s, str) and all(type(x) in (str, int) for x in args):
+                        try:
+                            return s.format(*args)
+                        except (IndexError, KeyError, ValueError) as ex:
+                            raise NotStatic(f"str.format: {ex}") from None
+                if f.attr == "encode" and len(e.args) <= 1:
+                    s = r(f.value)
+                    enc = r(e.args[0]) if e.args else "utf-8"
+                    if isinstance(s, str) and isinstance(enc, str) and enc.lower().replace("_", "-") in ("ascii", "utf-8", "utf8"):
+                        try:
+                            return s.encode(enc)
+                        except UnicodeError as ex:
+                            raise NotStatic(str(ex)) from None
+                if f.attr == "join" and len(e.args) == 1:
+                    s, parts = r(f.value), r(e.args[0])
+                    if isinstance(s, (str, bytes)) and isinstance(parts, (tuple, list)) and all(type(x) is type(s) for x in parts):
+                        return s.join(parts)
+        raise NotStatic(f"not a static constant: {ast.unparse(e)[:70]}")
+
+    def try_ev(self, e, fn=None, **kw):
+        try:
+            return True, self.ev(e, fn, **kw)
+        except NotStatic:
+            return False, None
+
+    def inline(self, e: ast.expr, fn, _d: int = 0) -> ast.expr:
+        """`e` with the locals of `fn` that are bound exactly once replaced by what they were bound to"""
+        if _d > 10:
+            return e
+        src = self
+
+        class Sub(ast.NodeTransformer):
+            def visit_Name(self, n):
+                if isinstance(n.ctx, ast.Load) and n.id in src.bindings(fn) and n.id not in params_of(fn):
+                    try:
+                        v, _scope = src.value_of(n, fn)
+                    except Shape:
+                        return n
+                    return src.inline(v, fn, _d + 1)
+                return n
+        import copy
+        return Sub().visit(copy.deepcopy(e))
 
 
 # ------------------------------------------------------------------ Gallina rendering
@@ -148,190 +515,934 @@ def split_qname(s: str) -> tuple[str, str]:
     return "", s
 
 
+def _strs(v, what: str) -> list[str]:
+    _need(isinstance(v, (tuple, list, frozenset)) and all(isinstance(x, str) for x in v), f"{what}: not a collection of strings")
+    return sorted(v)
+
+
+# ------------------------------------------------------------------ exs.py
+def x_regex_class(exs: Src, name: str) -> tuple[str, list[tuple[int, int]]]:
+    v = exs.ev(exs.assigned(name))
+    _need(isinstance(v, Regex), f"{name}: not re.compile(<constant string>)")
+    return v.source, parse_class(v.source)
+
+
+def x_comment_pattern(exs: Src, text_cls):
+    """the class `_serialize_comment` makes `_serialize_text` escape in the comment's text"""
+    fc, ft = exs.func("_serialize_comment"), exs.func("_serialize_text")
+    pats = []
+    ncalls = 0
+    for f in exs.closure(fc, 1):
+        if f is ft:
+            continue
+        for call, g in exs.calls_in(f):
+            if g is ft:
+                ncalls += 1
+                b = bind_call(ft, call)
+                if "pattern" in b:
+                    pats.append((b["pattern"], f))
+    _need(ncalls >= 1, "_serialize_comment: does not call _serialize_text")
+    _need(len(pats) <= 1, "_serialize_comment: several pattern= arguments")
+    if not pats:
+        return text_cls
+    p, f = pats[0]
+    try:
+        v = exs.ev(p, f)
+    except NotStatic as e:
+        raise Shape(f"_serialize_comment: pattern= {e}") from None
+    _need(isinstance(v, Regex), "_serialize_comment: pattern= is not re.compile(<constant string>)")
+    return parse_class(v.source)
+
+
+def x_default_pattern(exs: Src, fn_name: str, text_src: str) -> None:
+    f = exs.func(fn_name)
+    d = param_default(f, "pattern")
+    _need(d is not None, f"{fn_name}: no default for pattern")
+    try:
+        v = exs.ev(d)
+    except NotStatic as e:
+        raise Shape(f"{fn_name}: default pattern: {e}") from None
+    _need(isinstance(v, Regex) and v.source == text_src, f"{fn_name}: default pattern is not P_ESCAPE_TEXT")
+
+
+def _relations(test: ast.expr) -> list[tuple[ast.expr, ast.cmpop, ast.expr]] | None:
+    """a test that is a conjunction of order comparisons -> [(left, op, right)], else None"""
+    if isinstance(test, ast.BoolOp) and isinstance(test.op, ast.And):
+        out = []
+        for v in test.values:
+            r = _relations(v)
+            if r is None:
+                return None
+            out += r
+        return out
+    if isinstance(test, ast.Compare) and all(isinstance(o, (ast.Lt, ast.LtE, ast.Gt, ast.GtE)) for o in test.ops):
+        xs = [test.left, *test.comparators]
+        return [(xs[i], test.ops[i], xs[i + 1]) for i in range(len(test.ops))]
+    return None
+
+
+def x_escape_bounds(exs: Src) -> tuple[int, int]:
+    """[lo, hi]: the code points `_escape_char` writes as a named entity (&name;)"""
+    fe = exs.func("_escape_char")
+
+    def is_ord(e) -> bool:
+        e = exs.inline(e, fe)
+        return (isinstance(e, ast.Call) and isinstance(e.func, ast.Name) and e.func.id == "ord" and exs.is_builtin("ord", fe)
+                and len(e.args) == 1 and not e.keywords)
+
+    found = []
+    for n in walk_scope(fe):
+        if not isinstance(n, (ast.If, ast.IfExp)):
+            continue
+        rel = _relations(n.test)
+        if rel is None or not any(is_ord(a) or is_ord(b) for a, _o, b in rel):
+            continue
+        lo, hi, used = 0, sys.maxunicode, set()
+        for a, op, b in rel:
+            _need(is_ord(a) != is_ord(b), "_escape_char: comparison is not between ord(char) and a bound")
+            bound, flip = (b, False) if is_ord(a) else (a, True)
+            try:
+                v = exs.ev(bound, fe, defaults=True)
+            except NotStatic as e:
+                raise Shape(f"_escape_char: bound {e}") from None
+            _need(type(v) is int, "_escape_char: bound is not an int")
+            used |= {x.id for x in ast.walk(exs.inline(bound, fe)) if isinstance(x, ast.Name) and x.id in params_of(fe)}
+            # normalise to  ord(char) OP v
+            kind = type(op)
+            if flip:
+                kind = {ast.Lt: ast.Gt, ast.LtE: ast.GtE, ast.Gt: ast.Lt, ast.GtE: ast.LtE}[kind]
+            if kind is ast.GtE:
+                lo = max(lo, v)
+            elif kind is ast.Gt:
+                lo = max(lo, v + 1)
+            elif kind is ast.LtE:
+                hi = min(hi, v)
+            else:
+                hi = min(hi, v - 1)
+        yes = n.body if isinstance(n, ast.If) else [n.body]
+        no = n.orelse if isinstance(n, ast.If) else [n.orelse]
+        named = lambda stmts: any("codepoint2name" in ast.unparse(s) for s in stmts)  # noqa: E731
+        _need(named(yes) and not named(no), "_escape_char: the range test does not select the named-entity branch")
+        found.append((lo, hi, used))
+    _need(len(found) == 1, f"_escape_char: {len(found)} range tests on ord(char)")
+    lo, hi, used = found[0]
+    # parameter defaults are the values only if nobody passes these parameters
+    for n in ast.walk(exs.mod):
+        if isinstance(n, ast.Call):
+            direct = isinstance(n.func, ast.Name) and n.func.id == fe.name
+            mentions = any(isinstance(x, ast.Name) and x.id == fe.name for a in n.args for x in ast.walk(a))
+            if direct:
+                _need(not (set(bind_call(fe, n)) & used), "_escape_char is called with explicit bounds")
+            elif mentions:
+                _need(not ({k.arg for k in n.keywords} & used) and all(k.arg for k in n.keywords),
+                      "_escape_char is wrapped with explicit bounds")
+    return lo, hi
+
+
+def x_priority_attrs(exs: Src) -> list[str]:
+    fu = exs.func("_unmapped_attrs")
+    cands = []
+    for f in exs.closure(fu):
+        for n in walk_scope(f):
+            if isinstance(n, (ast.For, ast.comprehension)):
+                ok, v = exs.try_ev(n.iter, f)
+                if ok and isinstance(v, (tuple, list)) and v and all(isinstance(x, str) for x in v):
+                    cands.append(list(v))
+    _need(cands, "_unmapped_attrs: priority attribute tuple not found")
+    _need(len(cands) == 1, "_unmapped_attrs: two constant loops")
+    _need(len(set(cands[0])) == len(cands[0]), "_unmapped_attrs: duplicate priority attribute")
+    return cands[0]
+
+
+def _static_prefix(exs: Src, e: ast.expr, f) -> str | None:
+    """`<constant text>{variable}` / `<constant> + variable` -> the constant text"""
+    def variable(x):
+        return isinstance(x, ast.Name) and not exs.try_ev(x, f)[0]
+    if isinstance(e, ast.JoinedStr) and len(e.values) >= 2:
+        *head, last = e.values
+        if not (isinstance(last, ast.FormattedValue) and last.conversion == -1 and last.format_spec is None and variable(last.value)):
+            return None
+        ok, s = exs.try_ev(ast.JoinedStr(values=head), f)
+        return s if ok and s else None
+    if isinstance(e, ast.BinOp) and isinstance(e.op, ast.Add) and variable(e.right):
+        ok, s = exs.try_ev(e.left, f)
+        return s if ok and isinstance(s, str) and s else None
+    return None
+
+
+def x_xmlns_prefix(exs: Src) -> str:
+    fu = exs.func("_unmapped_attrs")
+    cands = []
+    for f in exs.closure(fu):
+        for n in walk_scope(f):
+            if isinstance(n, ast.Tuple) and len(n.elts) == 2 and isinstance(n.ctx, ast.Load):
+                p = _static_prefix(exs, n.elts[0], f)
+                if p is not None:
+                    cands.append(p)
+    _need(len(cands) == 1, "_unmapped_attrs: xmlns f-string not found")
+    return cands[0]
+
+
+def x_root_break_attr(exs: Src) -> str:
+    """the attribute name after which a line break is forced: `<name variable of the attribute
+    loop> == <constant>` inside a loop over (name, value) pairs"""
+    fel = exs.func("_serialize_element")
+    cands = []
+    for f in exs.closure(fel):
+        for loop in walk_scope(f):
+            if not (isinstance(loop, ast.For) and isinstance(loop.target, ast.Tuple) and len(loop.target.elts) == 2
+                    and all(isinstance(x, ast.Name) for x in loop.target.elts)):
+                continue
+            var = loop.target.elts[0].id
+            for n in walk_scope(loop):
+                if isinstance(n, ast.Compare) and len(n.ops) == 1 and isinstance(n.ops[0], ast.Eq):
+                    a, b = n.left, n.comparators[0]
+                    for x, y in ((a, b), (b, a)):
+                        if isinstance(x, ast.Name) and x.id == var:
+                            ok, v = exs.try_ev(y, f)
+                            if ok and isinstance(v, str):
+                                cands.append(v)
+    _need(len(cands) == 1, "_serialize_element: forced-break attribute test not found")
+    return cands[0]
+
+
+def x_ns_ranks(exs: Src) -> tuple[list[tuple[str, int]], int]:
+    """`_ns_sortkey((prefix, uri))` = (rank(prefix), prefix): the rank table (first match wins) and the default rank"""
+    fk = exs.func("_ns_sortkey")
+    a = fk.args
+    _need(len(a.posonlyargs + a.args) == 1 and not a.kwonlyargs and not a.vararg and not a.kwarg, "_ns_sortkey: parameters")
+    v = (a.posonlyargs + a.args)[0].arg
+    first = {f"{v}[0]"}
+    stmts = body_of(fk)
+    while stmts and isinstance(stmts[0], (ast.Assign, ast.AnnAssign)):
+        s = stmts.pop(0)
+        tgt = s.targets[0] if isinstance(s, ast.Assign) and len(s.targets) == 1 else getattr(s, "target", None)
+        val = s.value
+        if (isinstance(tgt, ast.Tuple) and len(tgt.elts) == 2 and all(isinstance(x, ast.Name) for x in tgt.elts)
+                and isinstance(val, ast.Name) and val.id == v and tgt.elts[0].id != tgt.elts[1].id):
+            first.add(tgt.elts[0].id)
+        elif isinstance(tgt, ast.Name) and val is not None and ast.unparse(val) == f"{v}[0]":
+            first.add(tgt.id)
+        else:
+            raise Shape("_ns_sortkey: unexpected assignment")
+    for name in first - {f"{v}[0]"}:
+        _need(len(exs.bindings(fk)[name]) == 1, "_ns_sortkey: prefix variable is rebound")
+    _need(len(exs.bindings(fk)[v]) == 1, "_ns_sortkey: parameter is rebound")
+
+    def is_first(e) -> bool:
+        return ast.unparse(e) in first
+
+    def keys_of(test) -> list[str]:
+        _need(isinstance(test, ast.Compare) and len(test.ops) == 1, "_ns_sortkey: unexpected if")
+        l, op, r = test.left, test.ops[0], test.comparators[0]
+        if isinstance(op, ast.Eq):
+            if not is_first(l):
+                l, r = r, l
+            _need(is_first(l), "_ns_sortkey: unexpected if")
+            ok, c = exs.try_ev(r, fk)
+            _need(ok and isinstance(c, str), "_ns_sortkey: unexpected if")
+            return [c]
+        _need(isinstance(op, ast.In) and is_first(l) and isinstance(r, (ast.Tuple, ast.List, ast.Set)), "_ns_sortkey: unexpected if")
+        cs = [exs.ev(x, fk) for x in r.elts]
+        _need(all(isinstance(c, str) for c in cs), "_ns_sortkey: unexpected if")
+        return cs
+
+    def rank_expr(e) -> tuple[list[tuple[str, int]], int]:
+        if isinstance(e, ast.IfExp):
+            ks = keys_of(e.test)
+            ok, r = exs.try_ev(e.body, fk)
+            _need(ok and type(r) is int, "_ns_sortkey: unexpected key")
+            rest, d = rank_expr(e.orelse)
+            return [(k, r) for k in ks] + rest, d
+        if (isinstance(e, ast.Call) and isinstance(e.func, ast.Attribute) and e.func.attr == "get" and len(e.args) == 2
+                and not e.keywords and is_first(e.args[0])):
+            ok, tbl = exs.try_ev(e.func.value, fk)
+            ok2, d = exs.try_ev(e.args[1], fk)
+            _need(ok and ok2 and isinstance(tbl, dict) and type(d) is int
+                  and all(isinstance(k, str) and type(r) is int for k, r in tbl.items()), "_ns_sortkey: unexpected key")
+            return list(tbl.items()), d
+        ok, d = exs.try_ev(e, fk)
+        _need(ok and type(d) is int, "_ns_sortkey: unexpected key")
+        return [], d
+
+    def key_expr(e) -> tuple[list[tuple[str, int]], int]:
+        _need(isinstance(e, ast.Tuple) and len(e.elts) == 2 and is_first(e.elts[1]), "_ns_sortkey: unexpected key")
+        return rank_expr(e.elts[0])
+
+    def block(ss: list[ast.stmt]) -> tuple[list[tuple[str, int]], int | None]:
+        """(table, default or None if the block falls through)"""
+        table: list[tuple[str, int]] = []
+        for i, s in enumerate(ss):
+            if isinstance(s, ast.Return):
+                _need(i == len(ss) - 1 and s.value is not None, "_ns_sortkey: unexpected statement")
+                tb, d = key_expr(s.value)
+                return table + tb, d
+            if isinstance(s, ast.If):
+                ks = keys_of(s.test)
+                tb, d = block(s.body)
+                _need(not tb and d is not None, "_ns_sortkey: unexpected if")
+                table += [(k, d) for k in ks]
+                if s.orelse:
+                    tb2, d2 = block(s.orelse)
+                    table += tb2
+                    if d2 is not None:
+                        _need(i == len(ss) - 1, "_ns_sortkey: unexpected statement")
+                        return table, d2
+                continue
+            _need(isinstance(s, ast.Pass) or (isinstance(s, ast.Expr) and isinstance(s.value, ast.Constant)),
+                  "_ns_sortkey: unexpected statement")
+        return table, None
+
+    ranks, default = block(stmts)
+    _need(default is not None and all(r >= 0 for _, r in ranks) and default >= 0, "_ns_sortkey: no default rank")
+    return ranks, default
+
+
+def x_cdata_flag(exs: Src) -> bool:
+    """does `_serialize_text` rewrite "]]>" to "]]&gt;" in the text it has escaped?"""
+    ft, fesc = exs.func("_serialize_text"), exs.func("_escape")
+    repl = [n for f in exs.closure(ft, 1) if f is not fesc and f is not exs.func("_escape_char")
+            for n in walk_scope(f) if isinstance(n, ast.Call) and isinstance(n.func, ast.Attribute) and n.func.attr == "replace"]
+    if not repl:
+        # the rewriting must not happen anywhere else either (e.g. inside _escape, which attribute values share)
+        for f in exs.closure(ft):
+            for n in walk_scope(f):
+                _need(not (isinstance(n, ast.Call) and isinstance(n.func, ast.Attribute) and n.func.attr == "replace"),
+                      f"{f.name}: unknown .replace(..)")
+        return False
+    _need(len(repl) == 1, "_serialize_text: unknown .replace(..)")
+    call = repl[0]
+    owner = next(f for f in exs.closure(ft, 1) if any(n is call for n in walk_scope(f)))
+    _need(owner is ft, "_serialize_text: unknown .replace(..)")
+    try:
+        args = [exs.ev(x, ft) for x in call.args]
+    except NotStatic:
+        args = None
+    recv = exs.inline(call.func.value, ft)
+    _need(args == ["]]>", "]]&gt;"] and not call.keywords and isinstance(recv, ast.Call) and exs.callee(ft, recv) is fesc,
+          "_serialize_text: unknown .replace(..)")
+    return True
+
+
+_TEXTS = (None, "", " ", "\n \t", "x", " x\n")
+_COUNTS = (0, 1, 2)
+
+
+class _Untyped(Exception):
+    pass
+
+
+def _tv(exs: Src, e: ast.expr, fn, elem: str, text, n: int, _d: int = 0):
+    """Value of a condition over an element's `.text` (None / "" / blank / non-blank) and its
+    number of children, for the restricted language: .text, len(element), .strip(), and/or/not,
+    `is [not] None`, comparisons with 0 / 1 / "", bool().  Anything else: _Untyped."""
+    if _d > 30:
+        raise _Untyped
+    r = lambda x: _tv(exs, x, fn, elem, text, n, _d + 1)  # noqa: E731
+    if isinstance(e, ast.Attribute) and e.attr == "text" and isinstance(e.value, ast.Name) and e.value.id == elem:
+        return text
+    if isinstance(e, ast.Constant) and (e.value is None or e.value == "" or e.value is True or e.value is False
+                                        or (type(e.value) is int and e.value in (0, 1))):
+        return e.value
+    if isinstance(e, ast.Name) and e.id != elem:
+        try:
+            v, scope = exs.value_of(e, fn)
+        except Shape:
+            raise _Untyped from None
+        if scope is not fn:
+            raise _Untyped
+        return _tv(exs, v, fn, elem, text, n, _d + 1)
+    if isinstance(e, ast.BoolOp):
+        v = None
+        for x in e.values:
+            v = r(x)
+            if isinstance(e.op, ast.And) and not v:
+                return v
+            if isinstance(e.op, ast.Or) and v:
+                return v
+        return v
+    if isinstance(e, ast.UnaryOp) and isinstance(e.op, ast.Not):
+        return not r(e.operand)
+    if isinstance(e, ast.Call) and not e.keywords:
+        f = e.func
+        if isinstance(f, ast.Name) and f.id == "len" and exs.is_builtin("len", fn) and len(e.args) == 1 \
+                and isinstance(e.args[0], ast.Name) and e.args[0].id == elem:
+            return n
+        if isinstance(f, ast.Name) and f.id == "bool" and exs.is_builtin("bool", fn) and len(e.args) == 1:
+            return bool(r(e.args[0]))
+        if isinstance(f, ast.Attribute) and f.attr == "strip" and not e.args:
+            v = r(f.value)
+            if not isinstance(v, str):
+                raise _Untyped          # would raise at run time
+            return v.strip()
+    if isinstance(e, ast.Compare) and len(e.ops) == 1:
+        a, op, b = r(e.left), e.ops[0], r(e.comparators[0])
+        if isinstance(op, (ast.Is, ast.IsNot)) and (a is None or b is None):
+            return (a is b) == isinstance(op, ast.Is)
+        if isinstance(op, (ast.Eq, ast.NotEq)) and (type(a) is type(b) or a is None or b is None) and not isinstance(a, bool):
+            return (a == b) == isinstance(op, ast.Eq)
+        if type(a) is int and type(b) is int:
+            if isinstance(op, ast.Lt):
+                return a < b
+            if isinstance(op, ast.LtE):
+                return a <= b
+            if isinstance(op, ast.Gt):
+                return a > b
+            if isinstance(op, ast.GtE):
+                return a >= b
+    raise _Untyped
+
+
+def x_blank_leaf_flag(exs: Src) -> bool:
+    """Which elements get their `.text` written?  True: `text and (no children or text.strip())`
+    (whitespace-only text of a leaf is kept), False: `(text or "").strip()`."""
+    fel = exs.func("_serialize_element")
+    elems: dict[int, tuple[t.Any, str]] = {}
+    pos = [x.arg for x in fel.args.posonlyargs + fel.args.args]
+    _need("element" in pos, "_serialize_element: no parameter `element`")
+    elems[id(fel)] = (fel, "element")
+    for call, g in exs.calls_in(fel):           # helpers that receive the element
+        if g is not None and g is not fel and g.name not in ("_serialize_text", "_unmapped_attrs", "_unmap_namespace"):
+            for p, arg in bind_call(g, call).items():
+                if isinstance(arg, ast.Name) and arg.id == "element" and len(exs.bindings(g).get(p, [])) == 1:
+                    _need(id(g) not in elems or elems[id(g)][1] == p, f"{g.name}: receives the element twice")
+                    elems[id(g)] = (g, p)
+    tables = []
+    for f, elem in elems.values():
+        for node in walk_scope(f):
+            if not isinstance(node, (ast.If, ast.IfExp)):
+                continue
+            mentions = any(isinstance(x, ast.Attribute) and x.attr == "text" and isinstance(x.value, ast.Name) and x.value.id == elem
+                           for x in ast.walk(exs.inline(node.test, f)))
+            if not mentions:
+                continue
+            try:
+                tables.append(tuple(bool(_tv(exs, node.test, f, elem, tx, n)) for tx in _TEXTS for n in _COUNTS))
+            except _Untyped:
+                continue
+    _need(len(tables) == 1, "_serialize_element: text test not found")
+    fixed = tuple(bool(tx and (n == 0 or tx.strip())) for tx in _TEXTS for n in _COUNTS)
+    plain = tuple(bool((tx or "").strip()) for tx in _TEXTS for n in _COUNTS)
+    _need(tables[0] in (fixed, plain), "_serialize_element: unknown text test")
+    return tables[0] == fixed
+
+
+# ------------------------------------------------------------------ core.py
+def _is_maxsize(core: Src, e: ast.expr) -> bool:
+    return isinstance(e, ast.Attribute) and e.attr == "maxsize" and isinstance(e.value, ast.Name) and core.is_module_import(e.value.id, "sys")
+
+
+def _is_exs_line_length(core: Src, e: ast.expr, fn) -> bool:
+    if not (isinstance(e, ast.Attribute) and e.attr == "LINE_LENGTH" and isinstance(e.value, ast.Name) and e.value.id == "exs"):
+        return False
+    bs = core.bindings(core.mod).get("exs", [])
+    return (len(bs) == 1 and isinstance(bs[0], ast.ImportFrom) and "exs" not in core.bindings(fn)
+            and (bs[0].module or "").split(".")[-1:] in (["loader"], [])
+            and any(al.name == "exs" and al.asname in (None, "exs") for al in bs[0].names))
+
+
+def x_write_xml(core: Src) -> None:
+    """ModelFile.write_xml must hand exs.write  line_length = exs.LINE_LENGTH for semantic
+    fragments, sys.maxsize otherwise, and siblings=True"""
+    fw = core.func("write_xml", "ModelFile")
+    calls = [(f, n) for f in core.closure(fw, 1) for n in walk_scope(f)
+             if isinstance(n, ast.Call) and ast.unparse(n.func) == "exs.write"]
+    _need(len(calls) == 1, "write_xml: exs.write call not found")
+    f, call = calls[0]
+    _need(f is fw, "write_xml: exs.write is not called by write_xml itself")
+    _need(all(k.arg for k in call.keywords) and not any(isinstance(x, ast.Starred) for x in call.args), "write_xml: unexpected exs.write arguments")
+    kw = {k.arg: k.value for k in call.keywords}
+    _need("line_length" in kw and "siblings" in kw, "write_xml: unexpected exs.write arguments")
+    ok, sib = core.try_ev(kw["siblings"], fw)
+    _need(ok and sib is True, "write_xml: unexpected exs.write arguments")
+    self_name = (fw.args.posonlyargs + fw.args.args)[0].arg
+
+    def semantic_test(test) -> bool | None:
+        """True: test <=> fragment is SEMANTIC; False: <=> it is not; None: unknown"""
+        test = core.inline(test, fw)
+        if isinstance(test, ast.UnaryOp) and isinstance(test.op, ast.Not):
+            r = semantic_test(test.operand)
+            return None if r is None else not r
+        if isinstance(test, ast.Compare) and len(test.ops) == 1 and isinstance(test.ops[0], (ast.Eq, ast.NotEq, ast.Is, ast.IsNot)):
+            sides = {ast.unparse(test.left), ast.unparse(test.comparators[0])}
+            if sides == {f"{self_name}.fragment_type", "FragmentType.SEMANTIC"}:
+                return isinstance(test.ops[0], (ast.Eq, ast.Is))
+        return None
+
+    def choice(e) -> tuple[ast.expr, ast.expr] | None:
+        """(value for semantic fragments, value otherwise)"""
+        if isinstance(e, ast.IfExp):
+            r = semantic_test(e.test)
+            if r is not None:
+                return (e.body, e.orelse) if r else (e.orelse, e.body)
+        if (isinstance(e, ast.Call) and isinstance(e.func, ast.Attribute) and e.func.attr == "get" and isinstance(e.func.value, ast.Dict)
+                and len(e.args) == 2 and not e.keywords and ast.unparse(e.args[0]) == f"{self_name}.fragment_type"
+                and len(e.func.value.keys) == 1 and e.func.value.keys[0] is not None
+                and ast.unparse(e.func.value.keys[0]) == "FragmentType.SEMANTIC"):
+            return e.func.value.values[0], e.args[1]
+        return None
+
+    e = kw["line_length"]
+    sel = choice(e)
+    if sel is None:
+        _need(isinstance(e, ast.Name) and e.id not in params_of(fw), "write_xml: unexpected line length selection")
+        binds = core.bindings(fw).get(e.id, [])
+        if len(binds) == 1:
+            sel = choice(core.value_of(e, fw)[0])
+        elif len(binds) == 2:
+            for n in walk_scope(fw):
+                if isinstance(n, ast.If) and len(n.body) == 1 and len(n.orelse) == 1 and _pos(n) < _pos(call):
+                    vals = []
+                    for s in (n.body[0], n.orelse[0]):
+                        tgt = s.targets[0] if isinstance(s, ast.Assign) and len(s.targets) == 1 else getattr(s, "target", None)
+                        if isinstance(s, (ast.Assign, ast.AnnAssign)) and any(tgt is b for b in binds) and s.value is not None:
+                            vals.append(s.value)
+                    r = semantic_test(n.test)
+                    if len(vals) == 2 and r is not None and any(n is s for s in fw.body):
+                        sel = (vals[0], vals[1]) if r else (vals[1], vals[0])
+    _need(sel is not None, "write_xml: unexpected line length selection")
+    _need(_is_exs_line_length(core, core.inline(sel[0], fw), fw) and _is_maxsize(core, core.inline(sel[1], fw)),
+          "write_xml: unexpected line length selection")
+
+
+def x_ns_seed(core: Src) -> list[str]:
+    """the prefixes ModelFile.update_namespaces always declares: {"p": _n.NAMESPACES["p"], ...}"""
+    fun = core.func("update_namespaces", "ModelFile")
+    seeds = []
+    for f in core.closure(fun):
+        for n in walk_scope(f):
+            if (isinstance(n, ast.Dict) and n.keys and all(isinstance(k, ast.Constant) and isinstance(k.value, str) for k in n.keys)
+                    and all(isinstance(v, ast.Subscript) and isinstance(v.value, ast.Attribute) and v.value.attr == "NAMESPACES"
+                            for v in n.values)):
+                seeds.append(n)
+    _need(len(seeds) == 1, "update_namespaces: seed dict not found")
+    bs = core.bindings(core.mod).get("_n", [])
+    _need(len(bs) == 1 and isinstance(bs[0], ast.Import) and any(al.name == "capellambse._namespaces" and al.asname == "_n" for al in bs[0].names),
+          "update_namespaces: _n is not capellambse._namespaces")
+    seed = []
+    for k, v in zip(seeds[0].keys, seeds[0].values):
+        _need(ast.unparse(v) == f"_n.NAMESPACES[{k.value!r}]", "update_namespaces: unexpected seed value")
+        seed.append(k.value)
+    _need(len(set(seed)) == len(seed), "update_namespaces: duplicate seed key")
+    return seed
+
+
+# ------------------------------------------------------------------ _namespaces.py
+def x_plugins(nsm: Src) -> list[tuple[str, str, bool, str, int]]:
+    d = nsm.assigned("NAMESPACES_PLUGINS")
+    _need(isinstance(d, ast.Dict), "NAMESPACES_PLUGINS is not a dict literal")
+    # field order and defaults of the Plugin dataclass, from its definition
+    cls = [s for s in nsm.mod.body if isinstance(s, ast.ClassDef) and s.name == "Plugin"]
+    _need(len(cls) == 1 and len(nsm.bindings(nsm.mod)["Plugin"]) == 1, "Plugin class not found")
+    _need(any("dataclass" in ast.unparse(x) for x in cls[0].decorator_list), "Plugin is not a dataclass")
+    fields: list[str] = []
+    vals0: dict[str, t.Any] = {}
+    for s in cls[0].body:
+        if isinstance(s, ast.AnnAssign) and isinstance(s.target, ast.Name) and "ClassVar" not in ast.unparse(s.annotation):
+            fields.append(s.target.id)
+            if s.value is not None:
+                vals0[s.target.id] = nsm.ev(s.value)
+        elif isinstance(s, ast.FunctionDef):
+            # __post_init__ (validation) is allowed: the table is compared with the constructed objects by the probe
+            _need(s.name not in ("__init__", "__new__"), "Plugin: custom construction")
+    _need({"name", "version", "viewpoint", "version_precision"} <= set(fields), "Plugin: fields")
+    rows = []
+    for k, v in zip(d.keys, d.values):
+        _need(k is not None, "NAMESPACES_PLUGINS: ** in dict literal")
+        key = nsm.ev(k)
+        _need(isinstance(key, str), "NAMESPACES_PLUGINS: key")
+        _need(isinstance(v, ast.Call) and isinstance(v.func, ast.Name) and v.func.id == "Plugin", f"plugin {key}: not Plugin(..)")
+        _need(len(v.args) <= len(fields) and all(x.arg in fields for x in v.keywords), f"plugin {key}: arguments")
+        vals = dict(vals0)
+        for f, a in zip(fields, v.args):
+            vals[f] = nsm.ev(a)
+        for x in v.keywords:
+            _need(x.arg not in fields[:len(v.args)], f"plugin {key}: argument given twice")
+            vals[x.arg] = nsm.ev(x.value)
+        _need(all(f in vals for f in ("name", "version", "viewpoint", "version_precision")), f"plugin {key}: missing field")
+        _need(isinstance(vals["name"], str) and type(vals["version_precision"]) is int and vals["version_precision"] > 0, f"plugin {key}")
+        versioned = vals["version"] is not None
+        _need(vals["viewpoint"] is None or isinstance(vals["viewpoint"], str), f"plugin {key}: viewpoint")
+        _need(not versioned or isinstance(vals["viewpoint"], str), f"plugin {key}: versioned without viewpoint")
+        rows.append((key, vals["name"], versioned, vals["viewpoint"] or "", vals["version_precision"]))
+    _need(len({r[0] for r in rows}) == len(rows), "NAMESPACES_PLUGINS: duplicate key")
+    return rows
+
+
+# ------------------------------------------------------------------ behavioural probe
+_PROBE = r'''
+import io, json, pathlib, re, sys, tempfile
+repo, plan = sys.argv[1], json.load(sys.stdin)
+sys.path.insert(0, repo)
+import lxml.etree as ET
+import capellambse._namespaces as nsm
+import capellambse.loader.core as core
+import capellambse.loader.exs as exs
+out = {"modules": [m.__file__ for m in (exs, core, nsm)]}
+
+def probe(name):
+    def deco(f):
+        try:
+            out[name] = f()
+        except BaseException as e:
+            out[name] = {"probe-error": f"{type(e).__name__}: {e}"}
+    return deco
+
+def ser(el, **kw):
+    return exs.serialize(el, **kw).decode("utf-8")
+
+@probe("consts")
+def _():
+    return {"INDENT": list(exs.INDENT), "LINE_LENGTH": exs.LINE_LENGTH, "LINESEP": list(exs.LINESEP),
+            "TEXT": [exs.P_ESCAPE_TEXT.pattern, exs.P_ESCAPE_TEXT.flags & ~re.UNICODE],
+            "COMMENTS": [exs.P_ESCAPE_COMMENTS.pattern, exs.P_ESCAPE_COMMENTS.flags & ~re.UNICODE],
+            "EXPANDED": sorted(exs.ALWAYS_EXPANDED_TAGS),
+            "SEMANTIC_EXTS": sorted(core.SEMANTIC_EXTS), "VISUAL_EXTS": sorted(core.VISUAL_EXTS)}
+
+@probe("escape_char")
+def _():
+    res = []
+    for c in plan["escape_points"]:
+        try:
+            s = exs._escape_char(re.match(".", chr(c), re.S))
+            res.append("num" if s.startswith("&#") else ("name:" + s[1:-1] if s.startswith("&") and s.endswith(";") else "other"))
+        except KeyError:
+            res.append("KeyError")
+    return res
+
+@probe("attrs")
+def _():
+    # attribute order / xmlns declarations / rank order / forced break, with an unlimited line
+    root = ET.Element("t", nsmap=dict(plan["nsmap"]))
+    for k, v in plan["root_attrs"]:
+        root.set(k, v)
+    child = ET.SubElement(root, "c")
+    for k, v in plan["child_attrs"]:
+        child.set(k, v)
+    return ser(root, line_length=10 ** 9)
+
+@probe("wrap")
+def _():
+    res = []
+    for n in plan["wrap_lengths"]:
+        root = ET.Element("t")
+        root.set("a", "x" * n)
+        root.set("b", "1")
+        child = ET.SubElement(root, "c")
+        child.set("a", "y" * n)
+        child.set("b", "2")
+        res.append(ser(root))
+    return res
+
+@probe("expanded")
+def _():
+    root = ET.Element("t")
+    for tag in plan["tags"]:
+        ET.SubElement(root, tag)
+    return ser(root)
+
+@probe("text")
+def _():
+    res = {}
+    for c in plan["text_points"]:
+        el = ET.Element("t")
+        el.text = "a" + chr(c) + "a"
+        el.set("k", "a" + chr(c) + "a")
+        res[str(c)] = ser(el, line_length=10 ** 9)
+    return res
+
+@probe("comment")
+def _():
+    res = {}
+    for c in plan["comment_points"]:
+        el = ET.Element("t")
+        el.addnext(ET.Comment("a" + chr(c) + "a"))
+        res[str(c)] = ser(el.getroottree())
+    return res
+
+@probe("special")
+def _():
+    a = ET.Element("t"); a.text = "x]]>y"; a.set("k", "x]]>y")
+    b = ET.Element("t"); ET.SubElement(b, "c").text = "  "
+    c = ET.Element("t"); c.text = "  "; ET.SubElement(c, "c")
+    d = ET.Element("t"); ET.SubElement(d, "c").text = ""
+    return [ser(x, line_length=10 ** 9) for x in (a, b, c, d)]
+
+@probe("plugins")
+def _():
+    return {k: [p.name, p.version is not None, p.viewpoint or "", p.version_precision] for k, p in nsm.NAMESPACES_PLUGINS.items()}
+
+@probe("model_files")
+def _():
+    # ModelFile.write_xml per file type, ModelFile.update_namespaces on a fragment without typed elements
+    from capellambse.filehandler import local
+    res = {"wrapped": {}, "seed": None}
+    with tempfile.TemporaryDirectory(prefix="verif-gen-exs-") as d:
+        exts = plan["exts"]
+        for i, ext in enumerate(exts):
+            pathlib.Path(d, f"m{i}{ext}").write_bytes(b'<?xml version="1.0"?>\n<t a="' + b"x" * plan["long"] + b'" b="1"/>\n')
+        fh = local.LocalFileHandler(d)
+        for i, ext in enumerate(exts):
+            mf = core.ModelFile(pathlib.PurePosixPath(f"m{i}{ext}"), fh, ignore_uuid_dups=False)
+            buf = io.BytesIO()
+            mf.write_xml(buf)
+            res["wrapped"][ext] = buf.getvalue().decode("utf-8")
+            if i == 0:
+                mf.update_namespaces({})
+                res["seed"] = sorted(mf.root.nsmap.items())
+    return res
+
+json.dump(out, sys.stdout)
+'''
+
+
+def run_probe(repo: pathlib.Path, plan: dict, script: str = _PROBE) -> dict:
+    """Run `script` with the interpreter the implementation is run with, importing capellambse
+    from `repo` only.  Any failure raises (fail closed)."""
+    py = "/venv/bin/python" if os.path.exists("/venv/bin/python") else sys.executable
+    env = {k: v for k, v in os.environ.items() if not k.startswith("PYTHON")}
+    env.update(PYTHONHASHSEED="0", PYTHONDONTWRITEBYTECODE="1", TZ="UTC")
+    try:
+        p = subprocess.run([py, "-c", script, str(repo)], input=json.dumps(plan), capture_output=True, text=True,
+                           timeout=120, env=env, cwd="/")
+    except (OSError, subprocess.TimeoutExpired) as e:
+        raise Shape(f"probe: could not run: {e}") from None
+    _need(p.returncode == 0, f"probe: exit {p.returncode}: {p.stderr.strip()[-300:]}")
+    try:
+        out = json.loads(p.stdout)
+    except ValueError:
+        raise Shape(f"probe: unreadable output {p.stdout[:200]!r}") from None
+    for k, v in out.items():
+        _need(not (isinstance(v, dict) and "probe-error" in v), f"probe {k}: {v.get('probe-error') if isinstance(v, dict) else v}")
+    return out
+
+
+def _under(repo: pathlib.Path, files: list[str]) -> bool:
+    root = repo.resolve()
+    return all(root in pathlib.Path(f).resolve().parents for f in files)
+
+
+def _start_tag(tag: str, attrs, level: int, pos: int, limit: int, indent: str, root: bool, brk: str) -> str:
+    """What the writer is predicted to emit for `<tag attr="v"...` (characters == columns: ASCII only)"""
+    s = "<" + tag
+    pos += 1 + len(tag)
+    force = False
+    for k, v in attrs:
+        if pos > limit or force:
+            s += "\n" + indent * (level + 2)
+            pos = len(indent) * (level + 2)
+            force = False
+        else:
+            s += " "
+            pos += 1
+        s += f'{k}="{v}"'
+        pos += len(k) + len(v) + 3
+        if root and k == brk:
+            force = True
+    return s
+
+
+def cross_check(repo: pathlib.Path, c: dict) -> None:
+    """Compare what the AST reading predicts with what the code of the tree under check does."""
+    ind = c["INDENT"].decode("ascii")
+    L = c["LINE_LENGTH"]
+    brk = c["ROOT_BREAK_ATTR"]
+    prio = c["PRIORITY_ATTRS"]
+    uris = sorted({split_qname(a)[0] for a in prio if a.startswith("{")})
+    # prefixes: the ranked ones, neighbours of them in plain string order, and one per priority namespace
+    ranked = [p for p, _ in c["NS_RANKS"]]
+    spare = [p for p in ("a", "xmh", "xmj", "xsh", "xsj", "zz") if p not in ranked]
+    _need("a" in spare, "probe: prefix a is ranked")
+    nsmap = [[p, f"urn:probe:{p}"] for p in ranked + spare] + [[f"pu{i}", u] for i, u in enumerate(uris) if f"pu{i}" not in ranked]
+    _need(len(nsmap) == len(ranked) + len(spare) + len(uris), "probe: prefix clash")
+    by_uri = {u: p for p, u in nsmap}
+    def fresh(name: str) -> str:
+        while name in prio or name == brk:
+            name += "_"
+        return name
+    plain = [fresh("zzz"), fresh("mmm")] + ([brk] if brk not in prio else []) + [fresh("aaa"), fresh(f"{brk}x"), "{urn:probe:a}q"]
+    root_attrs = [[k, f"v{i}"] for i, k in enumerate(plain[:2] + list(reversed(prio)) + plain[2:])]
+    child_plain = [[fresh("n"), "1"]] + ([[brk, "2"]] if brk != prio[0] else []) + [[fresh("m"), "3"]]
+    child_attrs = child_plain + [[prio[0], "4"]]
+    text_points = [9, 13] + [x for x in range(32, 127)] + [0x85, 0xA0, 0x2028]
+    exts = sorted(c["SEMANTIC_EXTS"]) + sorted(c["VISUAL_EXTS"]) + [".afm"]
+    plan = {
+        "escape_points": list(range(0, 0x180)) + [0x2028, 0xFFFD, 0x1F600],
+        "nsmap": nsmap, "root_attrs": root_attrs, "child_attrs": child_attrs,
+        "wrap_lengths": [max(L - 7, 0), max(L - 6, 0)],
+        "tags": sorted(c["ALWAYS_EXPANDED_TAGS"]) + ["probe-plain"],
+        "text_points": text_points, "comment_points": [x for x in text_points if x != ord("-")],
+        "exts": exts, "long": L + 20,
+    }
+    _need(L >= 8, "probe: LINE_LENGTH too small to probe")
+    got = run_probe(repo, plan)
+    _need(_under(repo, got["modules"]), f"probe: modules were not imported from {repo}")
+
+    def same(what, a, b):
+        _need(a == b, f"source and behaviour disagree on {what}: source says {a!r}, the code does {b!r}")
+
+    k = got["consts"]
+    same("INDENT", list(c["INDENT"]), k["INDENT"])
+    same("LINE_LENGTH", L, k["LINE_LENGTH"])
+    same("LINESEP", list(c["LINESEP"]), k["LINESEP"])
+    same("P_ESCAPE_TEXT", [c["TEXT_SRC"], 0], k["TEXT"])
+    same("P_ESCAPE_COMMENTS", [c["COMMENTS_SRC"], 0], k["COMMENTS"])
+    same("ALWAYS_EXPANDED_TAGS", sorted(c["ALWAYS_EXPANDED_TAGS"]), k["EXPANDED"])
+    same("SEMANTIC_EXTS", sorted(c["SEMANTIC_EXTS"]), k["SEMANTIC_EXTS"])
+    same("VISUAL_EXTS", sorted(c["VISUAL_EXTS"]), k["VISUAL_EXTS"])
+    # named-entity range of _escape_char
+    lo, hi = c["ORD_LOW"], c["ORD_HIGH"]
+    for cp, obs in zip(plan["escape_points"], got["escape_char"]):
+        if lo <= cp <= hi:
+            exp = "name:" + html.entities.codepoint2name[cp] if cp in html.entities.codepoint2name else "KeyError"
+        else:
+            exp = "num"
+        same(f"_escape_char(U+{cp:04X})", exp, obs)
+    # attribute order, namespace declarations, forced break
+    unq = lambda a: (by_uri[split_qname(a)[0]] + ":" if a.startswith("{") else "") + split_qname(a)[1]  # noqa: E731
+    vals = dict((k_, v_) for k_, v_ in root_attrs)
+    rank = dict(reversed(c["NS_RANKS"]))
+    decls = sorted(nsmap, key=lambda pu: (rank.get(pu[0], c["NS_DEFAULT_RANK"]), pu[0]))
+    exp_root = [(unq(a), vals[a]) for a in prio] + [(c["XMLNS_PREFIX"] + p, u) for p, u in decls] + [(unq(a), vals[a]) for a in plain]
+    exp_child = [(unq(prio[0]), "4")] + [(k_, v_) for k_, v_ in child_plain]
+    exp = (_start_tag("t", exp_root, 0, 0, 10 ** 9, ind, True, brk) + ">\n" + ind
+           + _start_tag("c", exp_child, 1, len(ind), 10 ** 9, ind, False, brk) + "/>\n</t>\n")
+    same("attribute order / xmlns declarations / forced break", exp, got["attrs"])
+    # wrap column and indentation
+    for n, obs in zip(plan["wrap_lengths"], got["wrap"]):
+        exp = (_start_tag("t", [("a", "x" * n), ("b", "1")], 0, 0, L, ind, True, brk) + ">\n" + ind
+               + _start_tag("c", [("a", "y" * n), ("b", "2")], 1, len(ind), L, ind, False, brk) + "/>\n</t>\n")
+        same(f"wrap column (value length {n})", exp, obs)
+    _need("\n" not in _start_tag("t", [("a", "x" * plan["wrap_lengths"][0]), ("b", "1")], 0, 0, L, ind, True, brk)
+          and "\n" in _start_tag("t", [("a", "x" * plan["wrap_lengths"][1]), ("b", "1")], 0, 0, L, ind, True, brk),
+          "probe: wrap inputs do not straddle LINE_LENGTH")
+    exp = "<t>" + "".join("\n" + ind + (f"<{tg}></{tg}>" if tg in c["ALWAYS_EXPANDED_TAGS"] else f"<{tg}/>") for tg in plan["tags"]) + "\n</t>\n"
+    same("ALWAYS_EXPANDED_TAGS (behaviour)", exp, got["expanded"])
+    # escape classes in text, attribute values and comments
+    def esc(cp: int, cls) -> str:
+        if not _in_class(cp, cls):
+            return chr(cp)
+        return f"&{html.entities.codepoint2name[cp]};" if lo <= cp <= hi else f"&#x{cp:X};"
+    for cp in text_points:
+        e = esc(cp, c["TEXT_CLASS"])
+        same(f"escaping of U+{cp:04X} in text and attribute value", f'<t k="a{e}a">a{e}a</t>\n', got["text"][str(cp)])
+    for cp in plan["comment_points"]:
+        e = esc(cp, c["COMMENT_TEXT_CLASS"])
+        same(f"escaping of U+{cp:04X} in a comment", f"<t/>\n<!--a{e}a-->\n\n", got["comment"][str(cp)])
+    gt = esc(ord(">"), c["TEXT_CLASS"])
+    sp = got["special"]
+    same('"]]>" in text / attribute value', f'<t k="x]]{gt}y">x]]{"&gt;" if c["FIX_CDATA_END"] else gt}y</t>\n', sp[0])
+    same("whitespace-only text of a leaf", "<t>\n" + ind + ("<c>  </c>" if c["FIX_BLANK_LEAF"] else "<c></c>") + "\n</t>\n", sp[1])
+    same("whitespace-only text before children", "<t>\n" + ind + "<c/>\n</t>\n", sp[2])
+    same("empty text of a leaf", "<t>\n" + ind + "<c></c>\n</t>\n", sp[3])
+    # plugin table, line length per file type, namespace seed
+    same("NAMESPACES_PLUGINS", {r[0]: [r[1], r[2], r[3], r[4]] for r in c["NS_PLUGINS"]}, got["plugins"])
+    for ext in exts:
+        limit = L if ext in c["SEMANTIC_EXTS"] else sys.maxsize
+        exp = ('<?xml version="1.0" encoding="UTF-8"?>\n'
+               + _start_tag("t", [("a", "x" * plan["long"]), ("b", "1")], 0, 0, limit, ind, True, brk) + "/>\n")
+        same(f"ModelFile.write_xml line length for {ext}", exp, got["model_files"]["wrapped"][ext])
+    names = {r[0]: r[1] for r in c["NS_PLUGINS"]}
+    same("update_namespaces seed", sorted([p, names[p]] for p in c["NS_SEED"]), got["model_files"]["seed"])
+
+
+# ------------------------------------------------------------------ the generator
+def extract(repo: pathlib.Path) -> dict:
+    exs = Src(repo / "capellambse" / "loader" / "exs.py")
+    core = Src(repo / "capellambse" / "loader" / "core.py")
+    nsm = Src(repo / "capellambse" / "_namespaces.py")
+    c: dict[str, t.Any] = {}
+    # --- simple constants
+    c["INDENT"] = exs.const("INDENT", bytes)
+    _need(c["INDENT"] and set(c["INDENT"]) <= {0x20}, "INDENT must consist of spaces")
+    c["LINE_LENGTH"] = exs.const("LINE_LENGTH", int)
+    _need(c["LINE_LENGTH"] >= 0, "LINE_LENGTH is negative")
+    c["LINESEP"] = exs.const("LINESEP", bytes)      # os.linesep of the platform the check runs on
+    _need(c["LINESEP"] == os.linesep.encode("ascii") == b"\n", "LINESEP is no longer os.linesep (POSIX)")
+    # --- escape classes
+    c["TEXT_SRC"], c["TEXT_CLASS"] = x_regex_class(exs, "P_ESCAPE_TEXT")
+    c["COMMENTS_SRC"], c["COMMENTS_CLASS"] = x_regex_class(exs, "P_ESCAPE_COMMENTS")
+    c["COMMENT_TEXT_CLASS"] = x_comment_pattern(exs, c["TEXT_CLASS"])
+    for fn in ("_escape", "_serialize_text"):
+        x_default_pattern(exs, fn, c["TEXT_SRC"])
+    c["ORD_LOW"], c["ORD_HIGH"] = x_escape_bounds(exs)
+    names = {}
+    for cp in set(_members(c["TEXT_CLASS"])) | set(_members(c["COMMENTS_CLASS"])) | set(_members(c["COMMENT_TEXT_CLASS"])):
+        if c["ORD_LOW"] <= cp <= c["ORD_HIGH"]:
+            _need(cp in html.entities.codepoint2name, f"class member {cp} has no entity name (KeyError at run time)")
+            names[cp] = html.entities.codepoint2name[cp]
+    c["ENTITY_NAMES"] = names
+    c["ALWAYS_EXPANDED_TAGS"] = _strs(exs.ev(exs.assigned("ALWAYS_EXPANDED_TAGS")), "ALWAYS_EXPANDED_TAGS")
+    c["PRIORITY_ATTRS"] = x_priority_attrs(exs)
+    c["XMLNS_PREFIX"] = x_xmlns_prefix(exs)
+    c["ROOT_BREAK_ATTR"] = x_root_break_attr(exs)
+    c["NS_RANKS"], c["NS_DEFAULT_RANK"] = x_ns_ranks(exs)
+    c["FIX_CDATA_END"] = x_cdata_flag(exs)
+    c["FIX_BLANK_LEAF"] = x_blank_leaf_flag(exs)
+    # --- core.py
+    c["SEMANTIC_EXTS"] = _strs(core.ev(core.assigned("SEMANTIC_EXTS")), "SEMANTIC_EXTS")
+    c["VISUAL_EXTS"] = _strs(core.ev(core.assigned("VISUAL_EXTS")), "VISUAL_EXTS")
+    x_write_xml(core)
+    # --- plugins
+    c["NS_PLUGINS"] = x_plugins(nsm)
+    c["NS_SEED"] = x_ns_seed(core)
+    for p in c["NS_SEED"]:
+        row = [r for r in c["NS_PLUGINS"] if r[0] == p]
+        _need(len(row) == 1 and not row[0][2], f"update_namespaces: seed namespace {p} is versioned or unknown")
+    cross_check(repo, c)
+    return c
+
+
 def generate(repo: pathlib.Path) -> dict[str, str]:
-    exs_src = (repo / "capellambse" / "loader" / "exs.py").read_text()
-    core_src = (repo / "capellambse" / "loader" / "core.py").read_text()
-    ns_src = (repo / "capellambse" / "_namespaces.py").read_text()
-    exs, core, nsm = ast.parse(exs_src), ast.parse(core_src), ast.parse(ns_src)
+    c = extract(pathlib.Path(repo))
+    b = lambda x: "true" if x else "false"  # noqa: E731
     L: list[str] = [
         "(* GENERATED by tools/gen_exs.py from capellambse/loader/exs.py, loader/core.py, _namespaces.py — do not edit *)",
         "From Coq Require Import ZArith NArith List Bool.",
         "Import ListNotations.",
         "From V Require Import Model.Val.",
         "",
+        f"Definition INDENT : str := {g_str(c['INDENT'])}.",
+        f"Definition LINE_LENGTH : N := {c['LINE_LENGTH']}%N.",
+        f"Definition LINESEP : str := {g_str(c['LINESEP'])}.   (* os.linesep on the platform the check runs on (POSIX) *)",
+        f"Definition TEXT_CLASS : list (N * N) := {g_ranges(c['TEXT_CLASS'])}.       (* P_ESCAPE_TEXT *)",
+        f"Definition COMMENTS_CLASS : list (N * N) := {g_ranges(c['COMMENTS_CLASS'])}.   (* P_ESCAPE_COMMENTS (declared) *)",
+        f"Definition COMMENT_TEXT_CLASS : list (N * N) := {g_ranges(c['COMMENT_TEXT_CLASS'])}.   (* pattern passed by _serialize_comment *)",
+        f"Definition ORD_LOW : N := {c['ORD_LOW']}%N.",
+        f"Definition ORD_HIGH : N := {c['ORD_HIGH']}%N.",
+        "Definition ENTITY_NAMES : list (N * str) := [" + "; ".join(f"({k}%N, {g_str(n)})" for k, n in sorted(c["ENTITY_NAMES"].items())) + "].",
+        "Definition ALWAYS_EXPANDED_TAGS : list str := [" + "; ".join(g_str(s) for s in c["ALWAYS_EXPANDED_TAGS"]) + "].",
+        "Definition PRIORITY_ATTRS : list (str * str) := [" + "; ".join(
+            "(%s, %s)" % tuple(g_str(x) for x in split_qname(a)) for a in c["PRIORITY_ATTRS"]) + "].",
+        f"Definition XMLNS_PREFIX : str := {g_str(c['XMLNS_PREFIX'])}.",
+        f"Definition ROOT_BREAK_ATTR : str := {g_str(c['ROOT_BREAK_ATTR'])}.",
+        "Definition NS_RANKS : list (str * N) := [" + "; ".join(f"({g_str(p)}, {r}%N)" for p, r in c["NS_RANKS"]) + "].",
+        f"Definition NS_DEFAULT_RANK : N := {c['NS_DEFAULT_RANK']}%N.",
+        f"Definition FIX_CDATA_END : bool := {b(c['FIX_CDATA_END'])}.   (* _serialize_text rewrites \"]]>\" to \"]]&gt;\" *)",
+        f"Definition FIX_BLANK_LEAF : bool := {b(c['FIX_BLANK_LEAF'])}.   (* whitespace-only text of a leaf element is written *)",
     ]
-    # --- simple constants
-    indent = _const(_assign(exs, "INDENT"), bytes)
-    _need(indent and set(indent) <= {0x20}, "INDENT must consist of spaces")
-    L.append(f"Definition INDENT : str := {g_str(indent)}.")
-    L.append(f"Definition LINE_LENGTH : N := {_const(_assign(exs, 'LINE_LENGTH'), int)}%N.")
-    linesep = _assign(exs, "LINESEP")
-    _need(ast.unparse(linesep) == "os.linesep.encode('ascii')", "LINESEP is no longer os.linesep")
-    L.append("Definition LINESEP : str := [10]%N.   (* os.linesep on the platform the check runs on (POSIX) *)")
-    # --- escape classes
-    template = _const(_assign(exs, "ESCAPE_CHARS"), str)
-    text_cls = parse_class(_compiled_format(exs, "P_ESCAPE_TEXT", template))
-    comm_cls = parse_class(_compiled_format(exs, "P_ESCAPE_COMMENTS", template))
-    L.append(f"Definition TEXT_CLASS : list (N * N) := {g_ranges(text_cls)}.       (* P_ESCAPE_TEXT *)")
-    L.append(f"Definition COMMENTS_CLASS : list (N * N) := {g_ranges(comm_cls)}.   (* P_ESCAPE_COMMENTS (declared) *)")
-    # pattern used by _serialize_comment
-    fc = _func(exs, "_serialize_comment")
-    pats = []
-    for n in ast.walk(fc):
-        if isinstance(n, ast.Call) and ast.unparse(n.func) == "_serialize_text":
-            for kw in n.keywords:
-                if kw.arg == "pattern":
-                    pats.append(kw.value)
-    _need(len(pats) <= 1, "_serialize_comment: several pattern= arguments")
-    if pats:
-        p = pats[0]
-        if isinstance(p, ast.Name):
-            _need(p.id in ("P_ESCAPE_TEXT", "P_ESCAPE_COMMENTS"), f"unknown pattern {p.id}")
-            used = text_cls if p.id == "P_ESCAPE_TEXT" else comm_cls
-        else:
-            _need(isinstance(p, ast.Call) and ast.unparse(p.func) == "re.compile" and len(p.args) == 1, "pattern= is not re.compile(..)")
-            used = parse_class(_const(p.args[0], str))
-    else:
-        used = text_cls
-    L.append(f"Definition COMMENT_TEXT_CLASS : list (N * N) := {g_ranges(used)}.   (* pattern passed by _serialize_comment *)")
-    # default pattern of _escape / _serialize_text must be P_ESCAPE_TEXT
-    for fn in ("_escape", "_serialize_text"):
-        f = _func(exs, fn)
-        kws = {a.arg: d for a, d in zip(f.args.kwonlyargs, f.args.kw_defaults)}
-        _need("pattern" in kws and isinstance(kws["pattern"], ast.Name) and kws["pattern"].id == "P_ESCAPE_TEXT",
-              f"{fn}: default pattern is not P_ESCAPE_TEXT")
-    fe = _func(exs, "_escape_char")
-    kws = {a.arg: d for a, d in zip(fe.args.kwonlyargs, fe.args.kw_defaults)}
-    lo, hi = _ord_default(kws["ord_low"]), _ord_default(kws["ord_high"])
-    L.append(f"Definition ORD_LOW : N := {lo}%N.")
-    L.append(f"Definition ORD_HIGH : N := {hi}%N.")
-    names = {}
-    for c in set(_members(text_cls)) | set(_members(comm_cls)) | set(_members(used)):
-        if lo <= c <= hi:
-            _need(c in html.entities.codepoint2name, f"class member {c} has no entity name (KeyError at run time)")
-            names[c] = html.entities.codepoint2name[c]
-    L.append("Definition ENTITY_NAMES : list (N * str) := [" + "; ".join(f"({c}%N, {g_str(n)})" for c, n in sorted(names.items())) + "].")
-    # --- always expanded
-    L.append("Definition ALWAYS_EXPANDED_TAGS : list str := [" + "; ".join(g_str(s) for s in _strset(_assign(exs, "ALWAYS_EXPANDED_TAGS"))) + "].")
-    # --- priority attributes
-    fu = _func(exs, "_unmapped_attrs")
-    prio = None
-    for n in ast.walk(fu):
-        if isinstance(n, ast.For) and isinstance(n.iter, ast.Tuple) and all(isinstance(x, ast.Constant) for x in n.iter.elts):
-            _need(prio is None, "_unmapped_attrs: two constant loops")
-            prio = [_const(x, str) for x in n.iter.elts]
-    _need(prio, "_unmapped_attrs: priority attribute tuple not found")
-    L.append("Definition PRIORITY_ATTRS : list (str * str) := [" + "; ".join(
-        "(%s, %s)" % tuple(g_str(x) for x in split_qname(a)) for a in prio) + "].")
-    nsdecl = [n for n in ast.walk(fu) if isinstance(n, ast.JoinedStr)]
-    _need(len(nsdecl) == 1 and isinstance(nsdecl[0].values[0], ast.Constant), "_unmapped_attrs: xmlns f-string not found")
-    L.append(f"Definition XMLNS_PREFIX : str := {g_str(nsdecl[0].values[0].value)}.")
-    # --- the root attribute after which a line break is forced
-    fel0 = _func(exs, "_serialize_element")
-    brk = [n for n in ast.walk(fel0) if isinstance(n, ast.Compare) and ast.unparse(n.left) == "attr" and len(n.ops) == 1
-           and isinstance(n.ops[0], ast.Eq) and isinstance(n.comparators[0], ast.Constant)]
-    _need(len(brk) == 1, "_serialize_element: forced-break attribute test not found")
-    L.append(f"Definition ROOT_BREAK_ATTR : str := {g_str(_const(brk[0].comparators[0], str))}.")
-    # --- _ns_sortkey rank table
-    fk = _func(exs, "_ns_sortkey")
-    ranks, default = [], None
-    for s in fk.body:
-        if isinstance(s, ast.If):
-            t = s.test
-            _need(isinstance(t, ast.Compare) and len(t.ops) == 1 and isinstance(t.ops[0], ast.Eq) and ast.unparse(t.left) == "ns"
-                  and not s.orelse and len(s.body) == 1 and isinstance(s.body[0], ast.Return), "_ns_sortkey: unexpected if")
-            r = s.body[0].value
-            _need(isinstance(r, ast.Tuple) and len(r.elts) == 2 and ast.unparse(r.elts[1]) == "ns", "_ns_sortkey: unexpected key")
-            ranks.append((_const(t.comparators[0], str), _const(r.elts[0], int)))
-        elif isinstance(s, ast.Return):
-            r = s.value
-            _need(isinstance(r, ast.Tuple) and len(r.elts) == 2 and ast.unparse(r.elts[1]) == "ns", "_ns_sortkey: unexpected default key")
-            default = _const(r.elts[0], int)
-        elif isinstance(s, ast.Assign):
-            _need(ast.unparse(s) == "ns, _ = v", "_ns_sortkey: unexpected assignment")
-        else:
-            _need(isinstance(s, ast.Expr) and isinstance(s.value, ast.Constant), "_ns_sortkey: unexpected statement")
-    _need(default is not None and all(r >= 0 for _, r in ranks) and default >= 0, "_ns_sortkey: no default rank")
-    L.append("Definition NS_RANKS : list (str * N) := [" + "; ".join(f"({g_str(p)}, {r}%N)" for p, r in ranks) + "].")
-    L.append(f"Definition NS_DEFAULT_RANK : N := {default}%N.")
-    # --- shape flags for the two proposed repairs
-    ft = _func(exs, "_serialize_text")
-    repl = [n for n in ast.walk(ft) if isinstance(n, ast.Call) and isinstance(n.func, ast.Attribute) and n.func.attr == "replace"]
-    if not repl:
-        cdata = False
-    else:
-        _need(len(repl) == 1 and [ast.literal_eval(a) for a in repl[0].args] == ["]]>", "]]&gt;"]
-              and ast.unparse(repl[0].func.value).startswith("_escape("), "_serialize_text: unknown .replace(..)")
-        cdata = True
-    L.append(f"Definition FIX_CDATA_END : bool := {'true' if cdata else 'false'}.   (* _serialize_text rewrites \"]]>\" to \"]]&gt;\" *)")
-    fel = _func(exs, "_serialize_element")
-    tests = [ast.unparse(n.test) for n in ast.walk(fel) if isinstance(n, ast.If) and "element.text" in ast.unparse(n.test)
-             and "ALWAYS_EXPANDED_TAGS" not in ast.unparse(n.test)]
-    _need(len(tests) == 1, "_serialize_element: text test not found")
-    known = {"(element.text or '').strip()": False,
-             "element.text and (len(element) == 0 or element.text.strip())": True}
-    _need(tests[0] in known, f"_serialize_element: unknown text test {tests[0]!r}")
-    L.append(f"Definition FIX_BLANK_LEAF : bool := {'true' if known[tests[0]] else 'false'}.   (* whitespace-only text of a leaf element is written *)")
     # --- interpreter facts
     spaces, start = [], None
     prev = None
-    for c in range(0x110000):
-        if chr(c).isspace():
+    for cp in range(0x110000):
+        if chr(cp).isspace():
             if start is None:
-                start = c
-            prev = c
+                start = cp
+            prev = cp
         elif start is not None:
             spaces.append((start, prev))
             start = None
     L.append(f"Definition PY_SPACE : list (N * N) := {g_ranges(spaces)}.   (* str.isspace of the running interpreter *)")
     L.append(f"Definition MAXSIZE : N := {sys.maxsize}%N.")
-    # --- core.py
-    L.append("Definition SEMANTIC_EXTS : list str := [" + "; ".join(g_str(s) for s in _strset(_assign(core, "SEMANTIC_EXTS"))) + "].")
-    L.append("Definition VISUAL_EXTS : list str := [" + "; ".join(g_str(s) for s in _strset(_assign(core, "VISUAL_EXTS"))) + "].")
-    fw = _func(core, "write_xml")
-    ifs = [s for s in fw.body if isinstance(s, ast.If)]
-    _need(len(ifs) == 1 and ast.unparse(ifs[0].test) == "self.fragment_type == FragmentType.SEMANTIC"
-          and ast.unparse(ifs[0].body[0]) == "line_length = exs.LINE_LENGTH"
-          and ast.unparse(ifs[0].orelse[0]) == "line_length = sys.maxsize", "write_xml: unexpected line length selection")
-    call = [n for n in ast.walk(fw) if isinstance(n, ast.Call) and ast.unparse(n.func) == "exs.write"]
-    _need(len(call) == 1, "write_xml: exs.write call not found")
-    kw = {k.arg: ast.unparse(k.value) for k in call[0].keywords}
-    _need(kw.get("line_length") == "line_length" and kw.get("siblings") == "True", "write_xml: unexpected exs.write arguments")
-    # --- plugins
-    d = _assign(nsm, "NAMESPACES_PLUGINS")
-    _need(isinstance(d, ast.Dict), "NAMESPACES_PLUGINS is not a dict literal")
-    rows = []
-    for k, v in zip(d.keys, d.values):
-        key = _const(k, str)
-        _need(isinstance(v, ast.Call) and ast.unparse(v.func) == "Plugin", f"plugin {key}: not Plugin(..)")
-        args = [ast.literal_eval(a) for a in v.args]
-        kwargs = {x.arg: ast.literal_eval(x.value) for x in v.keywords}
-        fields = ["name", "version", "viewpoint", "version_precision"]
-        vals = {"version": None, "viewpoint": None, "version_precision": 1}
-        for f, a in zip(fields, args):
-            vals[f] = a
-        vals.update(kwargs)
-        _need(isinstance(vals.get("name"), str) and isinstance(vals["version_precision"], int) and vals["version_precision"] > 0, f"plugin {key}")
-        versioned = vals["version"] is not None
-        _need(not versioned or isinstance(vals["viewpoint"], str), f"plugin {key}: versioned without viewpoint")
-        rows.append((key, vals["name"], versioned, vals["viewpoint"] or "", vals["version_precision"]))
+    L.append("Definition SEMANTIC_EXTS : list str := [" + "; ".join(g_str(s) for s in c["SEMANTIC_EXTS"]) + "].")
+    L.append("Definition VISUAL_EXTS : list str := [" + "; ".join(g_str(s) for s in c["VISUAL_EXTS"]) + "].")
     L.append("(* prefix, name, versioned?, viewpoint, version_precision *)")
     L.append("Definition NS_PLUGINS : list (str * (str * (bool * (str * N)))) := [")
-    L.append(";\n".join(f"  ({g_str(k)}, ({g_str(n)}, ({'true' if ver else 'false'}, ({g_str(vp)}, {pr}%N))))" for k, n, ver, vp, pr in rows))
+    L.append(";\n".join(f"  ({g_str(k)}, ({g_str(n)}, ({b(ver)}, ({g_str(vp)}, {pr}%N))))" for k, n, ver, vp, pr in c["NS_PLUGINS"]))
     L.append("].")
-    fun = _func(core, "update_namespaces")   # first one: ModelFile.update_namespaces
-    seeds = [n for n in ast.walk(fun) if isinstance(n, ast.Dict) and n.keys and all(isinstance(k, ast.Constant) for k in n.keys)]
-    _need(len(seeds) == 1, "update_namespaces: seed dict not found")
-    seed = []
-    for k, v in zip(seeds[0].keys, seeds[0].values):
-        _need(ast.unparse(v) == f"_n.NAMESPACES[{k.value!r}]", "update_namespaces: unexpected seed value")
-        seed.append(k.value)
-        row = [r for r in rows if r[0] == k.value]
-        _need(len(row) == 1 and not row[0][2], f"update_namespaces: seed namespace {k.value} is versioned or unknown")
-    L.append("Definition NS_SEED : list str := [" + "; ".join(g_str(s) for s in seed) + "].")
+    L.append("Definition NS_SEED : list str := [" + "; ".join(g_str(s) for s in c["NS_SEED"]) + "].")
     return {"ExsConsts.v": "\n".join(L) + "\n"}
 
 
 if __name__ == "__main__":
-    import os
     print(generate(pathlib.Path(os.environ.get("VERIF_REPO", "/repo")))["ExsConsts.v"])
